@@ -31,11 +31,6 @@ def repeat(a, repeats, axis=None):
         # nothing to repeat along an empty axis (and no slab to concatenate)
         return a
 
-    # The slabs below are cut at this layout's block boundaries and each is
-    # given explicit output chunks: pin the layout, so that the slabs keep the
-    # blocks they were measured with whatever optimization does to ``a``.
-    a = a.freeze_chunks()
-
     cchunks = cached_cumsum(a.chunks[axis], initial_zero=True)
     slices = []
     for c_start, c_stop in sliding_window(2, cchunks):
@@ -47,7 +42,10 @@ def repeat(a, repeats, axis=None):
     all_slice = slice(None, None, None)
     slices = [(all_slice,) * axis + (s,) + (all_slice,) * (a.ndim - axis - 1) for s in slices]
 
-    slabs = [a[slc] for slc in slices]
+    # Each slab is given explicit output chunks below: pin the layout it is
+    # measured with (the slab's, so that the cut itself can still be pushed
+    # into ``a``), whatever optimization does underneath.
+    slabs = [a[slc].freeze_chunks() for slc in slices]
 
     out = []
     for slab in slabs:
